@@ -25,11 +25,18 @@ Inductive skind :=
 | KWait (what : string)                                     (* channel receive / WaitGroup.Wait *)
 | KDispatch.                                                (* handler.handle(cs) *)
 
+(** one step of the plan that leads to a site *)
+Inductive pact :=
+| PA (l : slock) (w : bool) (facts : list (snode * snode))   (* Lock / RLock, with the node inequalities known there *)
+| PR (l : slock).                                            (* Unlock / RUnlock *)
+
 Record site := mkSite {
   s_root : string; s_fn : string; s_pos : string; s_kind : skind;
   s_held : list (slock * bool); s_facts : list (snode * snode);
-  s_pre : list (slock * bool);
-  s_undeferred : list (slock * bool) }.   (* backend calls: held locks whose release is not deferred *)
+  s_undeferred : list (slock * bool);
+  s_path : list pact }.                  (* calls, acquisitions, opened: every Lock/Unlock from the start of the root to here *)
+
+   (* backend calls: held locks whose release is not deferred *)
 
 Fixpoint snode_eqb (a b : snode) : bool :=
   match a, b with
@@ -49,6 +56,19 @@ Definition slock_eqb (a b : slock) : bool :=
   | SOpen x, SOpen y | SFid x, SFid y | STag x, STag y | SSend x, SSend y | SRecv x, SRecv y | SOther x, SOther y => String.eqb x y
   | _, _ => false
   end.
+
+(** the locks held after a plan, recomputed with the semantics of Locks.tstep (cons / remove every entry of the lock) *)
+Fixpoint pheld_from (h : list (slock * bool)) (p : list pact) : list (slock * bool) :=
+  match p with
+  | [] => h
+  | PA l w _ :: r => pheld_from ((l, w) :: h) r
+  | PR l :: r => pheld_from (filter (fun x => negb (slock_eqb l (fst x))) h) r
+  end.
+Definition pheld (p : list pact) := pheld_from [] p.
+
+(** every lock taken on the way to a site (released ones included) *)
+Definition s_pre (st : site) : list (slock * bool) :=
+  flat_map (fun a => match a with PA l w _ => [(l, w)] | PR _ => [] end) (s_path st).
 
 Lemma snode_eqb_eq : forall a b, snode_eqb a b = true <-> a = b.
 Proof.
